@@ -175,7 +175,12 @@ def format_code(
             keep_imports=keep_imports,
             max_line_length=max_line_length,
         )
-        return formatted[:-1] if formatted.endswith("\n") else formatted
+        # The line break at the end of the result is dropped again, unless the text needs it: after a
+        # backslash continuation ("x = 1 \\" followed by a blank last line) it ends the statement.
+        if formatted.endswith("\n") and not re.search(r"\\(\r\n|\r|\n)\Z", formatted[:-1]):
+            return formatted[:-1]
+
+        return formatted
 
     return _format_code(
         source,
